@@ -47,6 +47,7 @@ def types_program(types):
     ss.append(Method("sudo", "q2", (Arg("msg", "u32"), Arg("a", "u32"), Arg("b1", "u32"))))
     # argument names equal to locals of the generated dispatch / entry point functions
     ex.append(Method("exec", "q3", (Arg("contract", "u32"), Arg("field1", "String"), Arg("env", "u32"))))
+    ex.append(Method("exec", "q6", (Arg("funds", "u32"), Arg("msg", "String"), Arg("code_id", "u32"))))
     ss.append(Method("sudo", "q4", (Arg("deps", "u32"), Arg("info", "u32"), Arg("contract", "String"))))
     qs.append(Method("query", "q5", (Arg("contract", "u32"), Arg("querier", "String"))))
     ms = [Method("instantiate", "inst", (Arg("a", "u32"), Arg("b1", "String"), Arg("r#type", "Inner"))),
@@ -118,6 +119,18 @@ def recase_program():
     return Contract(methods=tuple(ms), entry_points="")
 
 
+def ctxmix_program():
+    """Handlers whose context parameter is typed with the context of *another* kind of the same shape
+    (legal: the conversion from the dispatch tuple exists); the annotation alone decides the kind (C04)."""
+    a = (Arg("a", "u32"),)
+    ms = [Method("instantiate", "inst", a, ctx_ty="ExecCtx"),
+          Method("exec", "ex", a, ctx_ty="InstantiateCtx"),
+          Method("sudo", "apply_upgrade", a, ctx_ty="MigrateCtx"),
+          Method("sudo", "plain_sudo", a),
+          Method("query", "qu", a)]
+    return Contract(methods=tuple(ms), entry_points="")
+
+
 def prefix_program():
     """Message names of one part that are proper prefixes of names of another part of the same kind,
     the longer-named part listed first (routing must compare whole names)."""
@@ -167,6 +180,7 @@ def programs(tier):
     out.append(("plegacy0", legacy_reply_program(), {"reply", "legacy"}))
     out.append(("pprefix0", prefix_program(), {"parts", "prefix"}))
     out.append(("precase0", recase_program(), {"samename", "recase"}))
+    out.append(("pctxmix0", ctxmix_program(), {"samename", "kinds", "ctxmix"}))
     for n in (0, 1, 2):
         out.append(("pparts%d" % n, parts_program(n), {"parts"}))
     KS = ["exec", "query", "sudo"]
